@@ -26,7 +26,7 @@ RULE = ('generated tracks: random global pairs plus antimeridian, near-polar, '
         'and symmetric; class = (geometry kind, probe kind)')
 ASSUMPTIONS = [
     'Vincenty 1975 (independent implementation) is the reference; for pairs where its '
-    'inverse needs > 40 iterations or fails, the oracle is closure: the direct solution '
+    'inverse needs > 12 iterations, fails, or that are > 19 500 km apart, the oracle is closure: the direct solution '
     'from the start with the reported total distance must land on the end point',
     "on multi-waypoint tracks with overstep off, step() refusing with 'step would cross a "
     "waypoint' is the documented behaviour and is counted, not flagged",
@@ -104,7 +104,9 @@ def run_shard(spec, rec):
     def leg_ref(p, q):
         """independent (distance, initial azimuth) of a leg, or None -> closure only"""
         r = G.inverse(p[0], p[1], q[0], q[1])
-        if r is None or r[3] > 40:
+        # Vincenty's azimuth loses accuracy towards the antipodal region (slow convergence
+        # is the symptom): there the oracle falls back to closure checks
+        if r is None or r[3] > 12 or r[0] > 1.95e7:
             return None
         return r[0], r[1]
 
